@@ -13,6 +13,7 @@ import (
 	"encoding/json"
 	"flag"
 	"fmt"
+	"io"
 	"os"
 	"sort"
 	"strings"
@@ -91,7 +92,7 @@ type outcome struct {
 
 // run executes the steps for which skip is false and stops at the first disagreement with the promise.
 func (r *runner) run(steps []step, skip func(s step) bool, stopAfter int) (out outcome) {
-	ctx := context.Background()
+	bg := context.Background()
 	dir, err := os.MkdirTemp(r.base, "s")
 	if err != nil {
 		out.err = err
@@ -128,6 +129,18 @@ func (r *runner) run(steps []step, skip func(s step) bool, stopAfter int) (out o
 	}
 	knownSet := map[string]bool{}
 	variant := 0
+	// the reader held open across steps (ropen ... rfinish)
+	var (
+		openR       io.ReadCloser
+		openRHead   []byte
+		openRStep   int
+		openRCancel = func() {}
+	)
+	defer func() {
+		if openR != nil {
+			openR.Close()
+		}
+	}()
 
 	for i, s := range steps {
 		if stopAfter >= 0 && i > stopAfter {
@@ -139,6 +152,14 @@ func (r *runner) run(steps []step, skip func(s step) bool, stopAfter int) (out o
 		variant++
 		var opErr error
 		got := ""
+		// callers hand every call its own context and give it up when the call has returned (a request handler
+		// does); what the call started in the background must not depend on it. One step in four keeps it alive.
+		ctx, stop := context.WithCancel(bg)
+		defer stop()
+		cancel := stop
+		if (int(r.m.Seed)+i)%4 == 0 {
+			cancel = func() {}
+		}
 		switch s.Op {
 		case "set", "lset":
 			opErr = drv.Write(ctx, store(s.A.T), r.m.Key(s.A.K), r.m.Content(s.A.C), int(r.m.Seed)+s.A.C+i*3)
@@ -185,6 +206,41 @@ func (r *runner) run(steps []step, skip func(s step) bool, stopAfter int) (out o
 			_, opErr = drv.Read(ctx, store(s.A.T), r.m.Key(s.A.K), i)
 		case "lkeys":
 			_, opErr = store(s.A.T).GetKeys(ctx)
+		case "ropen":
+			// the read begins: the reader is obtained and a first part is consumed (nothing, one byte, or a third)
+			want := r.m.Content(s.A.C)
+			openR, opErr = store(s.A.T).GetReader(ctx, r.m.Key(s.A.K))
+			openRHead, openRStep = nil, i
+			openRCancel, cancel = cancel, func() {} // this context lives as long as the reader
+			if opErr == nil {
+				n := []int{0, 1, len(want) / 3}[(int(r.m.Seed)+i)%3]
+				if n > len(want) {
+					n = len(want)
+				}
+				openRHead = make([]byte, n)
+				if _, err := io.ReadFull(openR, openRHead); err != nil {
+					out.mm = &mismatch{Step: i, Kind: "reader", Detail: fmt.Sprintf("ropen: the first %d bytes of %s cannot be read: %v", n, tagName(s.A.C), err)}
+				}
+			}
+		case "rfinish":
+			// ... and ends, whatever happened in between: the content it began with, complete
+			if openR == nil {
+				continue // the ropen step was left out by an ablation run
+			}
+			want := r.m.Content(s.A.C)
+			rest, err := io.ReadAll(openR)
+			openR.Close()
+			openR = nil
+			openRCancel()
+			all := append(append([]byte{}, openRHead...), rest...)
+			if err != nil || string(all) != string(want) {
+				between := []string{}
+				for j := openRStep + 1; j < i; j++ {
+					between = append(between, steps[j].Op)
+				}
+				out.mm = &mismatch{Step: i, Kind: "reader", Detail: fmt.Sprintf("a reader opened on %s (%d bytes, %d read at once) and finished after %v returned %s, err %v",
+					tagName(s.A.C), len(want), len(openRHead), between, describe(r.m, all, "ok", steps), err)}
+			}
 		case "gc":
 			opErr = d.GC()
 		case "reopen":
@@ -196,6 +252,11 @@ func (r *runner) run(steps []step, skip func(s step) bool, stopAfter int) (out o
 		default:
 			out.err = fmt.Errorf("unknown op %q", s.Op)
 			return
+		}
+		cancel()
+		ctx = bg
+		if out.mm != nil {
+			break
 		}
 		got = drv.Class(opErr)
 		if got != s.Pres {
@@ -337,6 +398,19 @@ func owner(steps []step, mm *mismatch) string {
 			return "C14"
 		}
 		return "C17"
+	}
+	if mm.Kind == "reader" {
+		// what came between opening and finishing decides: the collector (C09), the end of a transaction (C03), else C01
+		own := "C01"
+		for i := mm.Step - 1; i >= 0 && steps[i].Op != "ropen"; i-- {
+			switch steps[i].Op {
+			case "gc":
+				return "C09"
+			case "commit", "rollback":
+				own = "C03"
+			}
+		}
+		return own
 	}
 	begun := false
 	for i := 0; i <= mm.Step && i < len(steps); i++ {
